@@ -139,6 +139,11 @@ func multiScenario(id string, roms []string, order []int, sched string, frames i
 			wnd.VerifRunFrame(context.Background())
 			wnd.VerifRunFrame(context.Background())
 			wnd.Cleanup()
+			// so was an emulator configured for the debug view of the LCD (Config.DebugLCD: other colours, a larger
+			// frame buffer) - its configuration is its own
+			dbg := gameboy.New(gameboy.Config{RomFilename: roms[0], DebugLCD: true, DisableVideoOutput: true, DisableAudioOutput: true, SerialWriter: &bytes.Buffer{}})
+			dbg.VerifRunFrame(context.Background())
+			dbg.Cleanup()
 		}
 		if sched == "frame" || audio {
 			for f := 0; f < frames; f++ {
@@ -269,12 +274,13 @@ func systemGenMulti(c *Ctx, w *trace.Writer, tmp string) {
 		roms := romList(c, tmp, 16)
 		// roms[2] and roms[10] are two different programs on the same kind of cartridge (MBC1, no RAM declared)
 		// roms[14] ends in STOP (a key event wakes it - its own, which comes a frame after its neighbour's)
-		sets := [][]int{{2, 10}, {0, 1, 4}, {0, 14}, {2, 4}, {3, 10, 6}, {0, 8}, {5, 2, 10}}
+		// roms[12] and roms[16] are two different programs on the clock-less MBC3 cartridge that poke at the clock registers
+		sets := [][]int{{2, 10}, {0, 1, 4}, {0, 14}, {12, 16}, {2, 4}, {3, 10, 6}, {0, 8}, {5, 2, 10}}
 		frames := 3
-		groups := 3
+		groups := 4
 		if c.Thorough() {
 			frames = 10
-			groups = 7
+			groups = 8
 		}
 		n := 0
 		for g := 0; g < groups; g++ {
